@@ -215,4 +215,17 @@ def explore(ctx):
         'literals': len(lits), 'text_output_checked': txt_checked, 'model_cases': len(cases),
         'model_vs_impl_disagreements': sum(1 for r in results if r['corr']),
     }
+    # text that auto-converts to an integer N (leading +, surrounding blanks) is N in arithmetic as well, also beyond 2^53
+    texts = ['+9007199254740993', ' 9007199254740993', '9007199254740993 ', '+9223372036854775807', '+36028797018963969', '-9007199254740993', ' -36028797018963969']
+    q = '* | json | a + 0 as p | a - 0 as m | a * 1 as t | fields p, m, t'
+    o = aglib.run_impl_one(q, ''.join(json.dumps({'a': t}) + '\n' for t in texts).encode(), 'json')
+    lines = [l for l in o['out'].decode('utf8', 'replace').split('\n') if l]
+    cov['evaluations'] += len(texts)
+    for t, l in zip(texts, lines if len(lines) == len(texts) else [None] * len(texts)):
+        want = int(t)
+        row = json.loads(l) if l else None
+        if not row or any(type(row.get(c)) is not int or row.get(c) != want for c in ('p', 'm', 't')):
+            failures.append({'kind': 'spec', 'what': 'the text %r is the integer %d; in arithmetic it gives %r' % (t, want, row),
+                             'payload': {'query': q, 'input_lines': [json.dumps({'a': t})], 'mode': 'json'}})
+            break
     return {'coverage': cov, 'failures': failures}
